@@ -24,8 +24,8 @@ MANIFEST_CHECKS = {
         "level": "fault_enumeration",
         "technique": "deterministic simulation with fault injection: heap-wide frame condition over seeded histories, the catalogue of rejected calls and failing saves fired at every visited state, SimFS event trace for the destination file",
         "design_ref": "DESIGN.md s4 C13",
-        "text": "Seeded histories (2-12 state-changing steps quick, up to 30 thorough) over a heap of aliasing tiers, textgrids and SimFS files; after every state-changing step the catalogue of failing mutator calls (invalid option, collision in error mode, degenerate/malformed entry, missing entry/tier, name clash, span change under reportingMode='error'), of copy-returning operations and queries with fresh (also invalid) arguments, and of failing saves against a pre-existing destination is fired at live objects (quick: seeded 40% subset of calls on 3 objects; thorough: all calls on all objects). After every call the observation of EVERY live object and file is compared: no-mutation for copies/queries/saves (returned or raised), all-or-nothing for raised mutators, frame condition with identity-aware aliasing for successful mutators, event-level 'destination never opened/truncated/written' for failed saves, overwrite-vs-fresh equality for successful saves. Enumeration is of the fault catalogue per visited state; the states themselves are sampled.",
-        "note": "Trusted: the observation function (public surface: names, order, entries typed+exact, spans; file bytes) and SimFS's event trace. Injected device errors (ENOSPC/EIO/EACCES) are observations only, outside the property's listed failure causes. Tier objects shared by identity between textgrids are legitimate and followed by `is`.",
+        "text": "Seeded histories (2-12 state-changing steps quick, up to 30 thorough) over a heap of aliasing tiers, textgrids, shared entry lists and SimFS files; after every state-changing step the catalogue of failing mutator calls (invalid option, collision in error mode, degenerate/malformed/None entry, non-string label aimed at a collider, missing entry/tier, name clash, span change under reportingMode='error', wrong index type, non-tier argument), of copy-returning operations and queries with fresh (also invalid) arguments, and of failing saves (bad format / reportingMode / minimumIntervalLength, min/max overrides that cut entries, invalid textgrid under 'error') against a pre-existing destination (random bytes, empty file, or an earlier save) is fired at live objects (quick: seeded 40% subset on 3 objects; thorough: everything on all objects). After every call the observation of EVERY live object, list argument and file is compared: no-mutation for copies/queries/saves (returned or raised), all-or-nothing for raised mutators, frame condition with identity-aware aliasing for successful mutators, event-level 'destination never opened/truncated/written/unlinked/renamed' and 'no other file created' for failed saves, overwrite-vs-fresh equality for successful saves, plain-argument immutability; and at the end of every run the history is re-executed WITHOUT the probes and must reach the same states (twin execution: failed calls and queries must leave no hidden state that changes later results). Enumeration is of the fault catalogue per visited state; the states themselves are sampled.",
+        "note": "Trusted: the observation function (public surface: names, order, entries typed+exact incl. entry class, spans; file bytes and directory listing) and SimFS (raw bytes, stat/remove/rename/listdir) with its event trace. Injected device errors (ENOSPC/EIO/EACCES) are observations only, outside the property's listed failure causes. Tier objects shared by identity between textgrids are legitimate and followed by `is`. Generators only read attributes; every call into praatio is a recorded step.",
     },
     "C12": {
         "level": "exploration",
@@ -38,21 +38,21 @@ MANIFEST_CHECKS = {
         "level": "exploration",
         "technique": "deterministic simulation: seeded edit histories on live Wav buffers vs a list-of-samples model, with save/open/QueryWav through an in-memory FS seam",
         "design_ref": "DESIGN.md s4 C16",
-        "text": "Seeded search over histories (<= 6 edits quick, <= 12 thorough) of insert/deleteSegment/replaceSegment/concatenate/getSubwav/getFrames/getSamples/new/duration on 1-3 live Wav objects (widths 1/2/4, six rates, <= 400 samples incl. range extremes), times on and off sample positions; after every step the byte buffer must hold whole samples and decode (independent decoder) to the list model, return values equal the model's; save then Wav.open / QueryWav through SimFS (also over a longer pre-existing file) must give the same samples and parameters. Sampling, not proof.",
+        "text": "Seeded search over histories (<= 6 edits quick with a 15% share of up to 15, <= 12 thorough) of insert/deleteSegment/replaceSegment/concatenate/getSubwav/getFrames/getSamples/new/duration and convertToBytes/convertFromBytes on 1-3 live Wav objects (widths 1/2/4, ten rates, <= 400 samples incl. range extremes, with size classes up to 70 000 samples and exact 4096/8192/16384 lengths, RIFF-looking bytes), times on sample positions, 5-45% off them, or 1e-6..1e-8 sample from a rounding tie; after every step the byte buffer must hold whole samples and decode (independent decoder) to the list model, return values equal the model's; save then Wav.open / QueryWav (interleaved and continued reads) through SimFS, also over a longer pre-existing file and repeatedly to one path, must give the same samples and parameters. Sampling, not proof.",
         "note": "Trusted: WavModel (25 lines) and the independent little-endian codec in dsim/c16.py; the real wave/io stack runs on the SimFS raw layer. Times within 0.05 sample of a rounding tie, start > end and times outside [0, duration] are not generated. QueryWav with off-grid times is only held to whole samples from the nearest start, length +-1.",
     },
     "C05": {
         "level": "exploration",
         "technique": "deterministic simulation: seeded operation/fault histories over a heap of live tiers (incl. save/open through an in-memory FS seam), well-formedness invariant checked after every step",
         "design_ref": "DESIGN.md s4 C05",
-        "text": "Seeded search over histories (3-14 steps quick, up to 40 thorough) of the property's whole operation alphabet with arbitrary and deliberately invalid arguments on a heap of up to 6 live interval/point tiers, in a dyadic-grid and a decimal numeric regime, plus save->open round trips and hand-written JSON files through SimFS. After every step every created or mutated tier (also the receiver of a mutator that raised) must satisfy the well-formedness invariant and validate() must agree with the simulator's predicate. Sampling, not proof.",
+        "text": "Seeded search over histories (3-14 steps quick, up to 40 thorough) of the property's whole operation alphabet (plus the Textgrid-level counterparts as tier sources) with arbitrary and deliberately invalid arguments on a heap of up to 6 live interval/point tiers, in a dyadic-grid, a decimal (optionally ulp-perturbed) and an extreme-magnitude numeric regime, tiers of up to 8/24/40/120/320 entries, entry lists shared between constructor calls, plus save->open round trips in all four formats and hand-written JSON files with unsorted/overlapping/padded entries through SimFS. After every step EVERY live tier (created, mutated, receiver of a mutator that raised, or bystander) must satisfy the well-formedness invariant and validate() must agree with the simulator's predicate. Sampling, not proof.",
         "note": "Trusted: the 40-line invariant in dsim/c05.py. Exceptions of any type are accepted (the statement forbids returning ill-formed tiers); non-praatio exception types are reported in the evidence only. NaN/inf/negative input timestamps are not generated.",
     },
     "C11": {
         "level": "exploration",
         "technique": "deterministic simulation: seeded insert/delete histories on live tiers vs an executable list model, step-by-step, with rejected-call faults",
         "design_ref": "DESIGN.md s4 C11",
-        "text": "Seeded search over histories (3-12 steps quick, up to 24 thorough) of insertEntry/deleteEntry on interval and point tiers, including tiers derived by other operations; after every step outcome class, entries (exact, field by field) and span are compared with a list model; failing calls (collision in error mode, degenerate entry, missing entry, invalid option) must leave the tier unchanged. Sampling, not proof.",
-        "note": "Trusted: the list model in dsim/models.py (40 lines), Python's float comparison. Not covered: entries closer than praatio's tolerant equality (gray zone, never generated), point tiers with duplicate times, collisionReportingMode='error' (outside the documented domain).",
+        "text": "Seeded search over histories (3-12 steps quick, up to 24 thorough) of insertEntry/deleteEntry on interval and point tiers of up to 8/24/40/120/320 entries, including tiers derived by other operations, inserts that resurrect deleted entries, entries as tuples/lists/namedtuples, ints and floats, option strings as fresh str objects; after every step outcome class, entries (exact, field by field) and span are compared with a list model; failing calls (collision in error mode, degenerate entry, missing entry, invalid option) must leave the tier unchanged; delete targets that differ from a stored entry by one ulp are accepted either way but nothing else may change. Sampling, not proof.",
+        "note": "Trusted: the list model in dsim/models.py (60 lines), Python's float comparison. Whether an entry that differs from a stored one by rounding noise is 'the given entry' is left open by the statement: both behaviours are accepted there (relaxed oracle). Point tiers with duplicate times at construction and collisionReportingMode='error' (outside the documented domain) are not generated.",
     },
 }
